@@ -395,6 +395,112 @@ class Inliner:
             self._note(ctx, callee.qualname, str(e))
             return None
 
+    def _inline_generator_loop(self, st: ast.For, ctx) -> Optional[List[ast.stmt]]:
+        """`for T in _gen(args): BODY` with a private generator helper whose yields are plain `yield E` statements:
+        the helper's loop nest with every `yield E` replaced by `T = E; BODY`."""
+        r = self._resolve(st.iter, ctx)
+        if r is None:
+            return None
+        callee, receiver = r
+        nd = callee.node
+        if not isinstance(nd, ast.FunctionDef) or callee.qualname in ctx["stack"] or len(ctx["stack"]) > MAX_DEPTH:
+            return None
+        nm = callee.name
+        if self.private_only and callee.parent is None and not (nm.startswith("_") and not nm.endswith("__")):
+            return None
+        yields = [n for n in _own_nodes(nd) if isinstance(n, (ast.Yield, ast.YieldFrom))]
+        if not yields or any(isinstance(y, ast.YieldFrom) for y in yields):
+            return None
+        if nd.args.vararg or nd.args.kwarg or nd.decorator_list:
+            return None
+        for n in _own_nodes(nd):
+            if isinstance(n, (ast.Return, ast.Global, ast.Nonlocal, ast.Await, ast.Try, ast.With)):
+                self._note(ctx, callee.qualname, "generator with return/try/with")
+                return None
+        # every yield must be a statement of its own
+        stmt_yields = [n for n in _own_nodes(nd) if isinstance(n, ast.Expr) and isinstance(n.value, ast.Yield)]
+        if len(stmt_yields) != len(yields):
+            self._note(ctx, callee.qualname, "yield used as an expression")
+            return None
+        # the loop body must not leave the loop in a way that would mean something else inside the helper's loops
+        for n in st.body:
+            for x in [n] + list(_own_nodes(n)):
+                if isinstance(x, (ast.Break, ast.Return)):
+                    self._note(ctx, callee.qualname, "break/return in the body of a loop over a generator")
+                    return None
+        has_continue = any(isinstance(x, ast.Continue) for n in st.body for x in [n] + list(_own_nodes(n))
+                           if not isinstance(x, (ast.For, ast.While)))
+        if not self._free_names_agree(callee, ctx["fi"]):
+            return None
+        try:
+            binding = self._bind(callee, st.iter, receiver)
+        except NotInlinable as e:
+            self._note(ctx, callee.qualname, str(e))
+            return None
+        k = next(self.counter)
+        body = list(copy.deepcopy(nd).body)
+        for x in body:
+            for n in ast.walk(x):
+                n._relpath = callee.module.relpath
+        if body and isinstance(body[0], ast.Expr) and isinstance(body[0].value, ast.Constant) and isinstance(body[0].value.value, str):
+            body = body[1:]
+        stored = stored_names(nd) - {callee.name}
+        params = _param_names(nd)
+        ren = {n_: f"_g{k}_{n_}" for n_ in stored}
+        subst: Dict[str, ast.AST] = {}
+        prelude: List[ast.stmt] = []
+        for p_ in params:
+            arg = binding[p_]
+            if p_ not in stored and _is_pure_chain(arg):
+                subst[p_] = arg
+            else:
+                ren[p_] = f"_g{k}_{p_}"
+                prelude.append(ast.copy_location(ast.Assign([ast.Name(ren[p_], ast.Store())], arg), st))
+        rn = _Rename(ren, subst)
+        body = [rn.visit(x) for x in body]
+        me = self
+        ok = [True]
+
+        class Y(ast.NodeTransformer):
+            def visit_FunctionDef(self, n):
+                return n
+
+            visit_Lambda = visit_ClassDef = visit_FunctionDef
+
+            def generic_stmts(self, stmts):
+                out2 = []
+                for idx, s_ in enumerate(stmts):
+                    if isinstance(s_, ast.Expr) and isinstance(s_.value, ast.Yield):
+                        if has_continue and idx != len(stmts) - 1:
+                            ok[0] = False
+                        val = s_.value.value if s_.value.value is not None else ast.Constant(None)
+                        asg = ast.copy_location(ast.Assign([copy.deepcopy(st.target)], val), s_)
+                        for t_ in ast.walk(asg.targets[0]):
+                            if isinstance(t_, (ast.Name, ast.Tuple, ast.List, ast.Starred, ast.Subscript, ast.Attribute)):
+                                t_.ctx = ast.Store() if not isinstance(t_, (ast.Subscript, ast.Attribute)) or t_ is asg.targets[0] else t_.ctx
+                        out2.append(asg)
+                        out2.extend(copy.deepcopy(st.body))
+                    else:
+                        out2.append(self.visit(s_))
+                return out2
+
+            def generic_visit(self, node):
+                for fld in ("body", "orelse", "finalbody"):
+                    sub = getattr(node, fld, None)
+                    if isinstance(sub, list) and sub and isinstance(sub[0], ast.stmt):
+                        setattr(node, fld, self.generic_stmts(sub))
+                return node
+
+        new_body = Y().generic_stmts(body)
+        if not ok[0]:
+            self._note(ctx, callee.qualname, "continue in the loop body and a yield that is not last")
+            return None
+        for x in prelude + new_body:
+            ast.fix_missing_locations(x)
+        self._note(ctx, callee.qualname)
+        sub_ctx = dict(ctx)
+        return self._block(prelude + new_body, sub_ctx)
+
     def _needs_loop(self, comp: ast.ListComp, ctx) -> bool:
         if any(g.is_async for g in comp.generators):
             return False
@@ -428,6 +534,11 @@ class Inliner:
             if isinstance(st, ast.Try):
                 for h in st.handlers:
                     h.body = self._block(h.body, ctx)
+            if isinstance(st, ast.For) and not st.orelse and isinstance(st.iter, ast.Call):
+                g = self._inline_generator_loop(st, ctx)
+                if g is not None:
+                    out.extend(g)
+                    continue
             prelude: List[ast.stmt] = []
             headers = {
                 ast.Assign: ["value"], ast.AugAssign: ["value"], ast.AnnAssign: ["value"], ast.Expr: ["value"],
